@@ -16,6 +16,7 @@ import traceback
 import casadi as ca
 import numpy as np
 
+from vk.paths import REPO
 from vk.report import Collector, EncodingGap, Report, run_parallel, std_args
 from vk.smt import equiv, modelio, ops, pipeline
 from vk.smt.ast2z3 import elem_name
@@ -328,8 +329,8 @@ def main():
     args = std_args(PROP)
     rep = Report(PROP, args.tier, "translation_validation", args.seed)
     items = list(MODELS.items())
-    items += [("repo:SimplifyVector", open("/repo/test/models/SimplifyVector.mo").read().replace("SimplifyVector", "M")),
-              ("repo:DelayForLoop", open("/repo/test/models/DelayForLoop.mo").read().replace("DelayForLoop", "M"))]
+    items += [("repo:SimplifyVector", open(REPO + "/test/models/SimplifyVector.mo").read().replace("SimplifyVector", "M")),
+              ("repo:DelayForLoop", open(REPO + "/test/models/DelayForLoop.mo").read().replace("DelayForLoop", "M"))]
     for col in run_parallel(work, items, args.jobs):
         rep.merge(col)
     cov = rep.coverage
